@@ -90,6 +90,12 @@ func clampedArg(r *Run, fnName, match string, i int, limit, why string) {
 			}
 		}
 		if clamp == nil {
+			// the clamp as a function: `loc = cap(loc)` where cap(x) returns the limit when x exceeds it and x otherwise
+			if st := clampByHelper(r, fn, cs, loc, limit); st != nil {
+				f2, l2 := r.P.Pos(st.Pos())
+				r.pass("K11-clamped", fnName, construct, fmt.Sprintf("clamped through a capping helper at %s:%d, the last write before the call", f2, l2), why, cs.File, cs.Line)
+				continue
+			}
 			r.viol("K11-clamped", fnName, construct, fmt.Sprintf("no clamp `if %s > %s { %s = %s }` dominates the call at %s:%d (unsigned comparison on the request field itself)", loc, limit, loc, limit, cs.File, cs.Line), why, cs.File, cs.Line)
 			continue
 		}
@@ -230,4 +236,72 @@ func runC15(r *Run) {
 	h := "protocol.(*ProtocolManager).handle"
 	r.Has(h, "defer recv.removePeer(a0.id)", "the peer whose message failed is deregistered when handle returns")
 	r.Returns(h, []string{"a0.Handshake(recv.chainman.Status()#0,recv.chainman.Status()#1,recv.chainman.Status()#2)", "recv.peers.Register(a0)", "recv.downloader.RegisterPeer(a0.id,a0.version,a0.Head(),closure:protocol.RequestHashes$bound,closure:protocol.RequestHashesFromNumber$bound,closure:protocol.RequestBlocks$bound)", "recv.handleMsg(a0)"}, "handle ends (dropping this peer only) exactly when handshake, registration or a message fails")
+}
+
+// clampByHelper: the last store to loc before the call (dominating it, no later store on a path to
+// the call) assigns h(load loc) where h(x) is a capping function: it branches on limit < x and
+// returns the limit on that side and x on the other.
+func clampByHelper(r *Run, fn *ssa.Function, cs *CallSite, loc, limit string) *ssa.Store {
+	env := r.P.Env(fn)
+	var last *ssa.Store
+	var others []*ssa.Store
+	for _, b := range fn.Blocks {
+		for _, in := range b.Instrs {
+			st, ok := in.(*ssa.Store)
+			if !ok || env.of(st.Addr).String() != loc {
+				continue
+			}
+			if !instrDominates(st, cs.Instr.(ssa.Instruction)) {
+				others = append(others, st)
+				continue
+			}
+			if last == nil || instrDominates(last, st) {
+				last = st
+			}
+		}
+	}
+	if last == nil {
+		return nil
+	}
+	// no other write between the capping store and the call
+	for _, o := range others {
+		if o.Block() != last.Block() && blockReaches(last.Block(), o.Block()) && blockReaches(o.Block(), cs.Instr.Block()) {
+			return nil
+		}
+	}
+	call, ok := last.Val.(*ssa.Call)
+	if !ok || len(call.Call.Args) != 1 {
+		return nil
+	}
+	h := call.Call.StaticCallee()
+	if h == nil || h.Blocks == nil || r.P.FuncName(h) == "" {
+		return nil
+	}
+	ld, ok := call.Call.Args[0].(*ssa.UnOp)
+	if !ok || env.of(ld.X).String() != loc {
+		return nil
+	}
+	henv := r.P.Env(h)
+	rets := map[string]bool{}
+	for _, b := range h.Blocks {
+		if ret, ok := lastInstr(b).(*ssa.Return); ok && len(ret.Results) == 1 {
+			rets[henv.of(ret.Results[0]).String()] = true
+		}
+	}
+	if len(rets) != 2 || !rets["a0"] || !rets[limit] {
+		return nil
+	}
+	for _, g := range r.P.Info(h).guards {
+		if g.Cond.String() == "lt("+limit+",a0)" || g.Cond.Negate().String() == "lt("+limit+",a0)" {
+			// the limit is returned on the side where the bound is exceeded
+			side := g.Block.Succs[0]
+			if g.Cond.String() != "lt("+limit+",a0)" {
+				side = g.Block.Succs[1]
+			}
+			if ret, ok := lastInstr(side).(*ssa.Return); ok && henv.of(ret.Results[0]).String() == limit {
+				return last
+			}
+		}
+	}
+	return nil
 }
